@@ -31,15 +31,16 @@ theorem documented_cases :
     ([TCon.threadedRodeo, .reader, .resolver].all fun c => isM .sync c (asgOf true true true true)) = true := by
   decide
 
-/-- Exactly the manual marker impls the theorems above rely on are present (a dropped bound or a new
-unconditional impl changes this table). -/
+/-- Exactly the manual marker impls the theorems above rely on are present, in the extractor's canonical (sorted) order: the order of
+impl blocks and of bounds in the source means nothing (a dropped bound or a new unconditional impl
+changes this table). -/
 theorem impl_table :
     (Extracted.markerImpls.map fun i => (i.ty, i.trait_, i.bounds)) =
-      [(.rodeo, .send, [(.K, .send), (.S, .send)]),
-       (.threadedRodeo, .sync, [(.K, .sync), (.S, .sync)]), (.threadedRodeo, .send, [(.K, .send), (.S, .send)]),
-       (.reader, .sync, [(.K, .sync), (.S, .sync)]), (.reader, .send, [(.K, .send), (.S, .send)]),
+      [(.atomicBucket, .send, []), (.atomicBucket, .sync, []), (.bucket, .send, []), (.bucket, .sync, []),
+       (.reader, .send, [(.K, .send), (.S, .send)]), (.reader, .sync, [(.K, .sync), (.S, .sync)]),
        (.resolver, .send, [(.K, .send)]), (.resolver, .sync, [(.K, .sync)]),
-       (.bucket, .send, []), (.bucket, .sync, []), (.atomicBucket, .send, []), (.atomicBucket, .sync, [])] := by
+       (.rodeo, .send, [(.K, .send), (.S, .send)]),
+       (.threadedRodeo, .send, [(.K, .send), (.S, .send)]), (.threadedRodeo, .sync, [(.K, .sync), (.S, .sync)])] := by
   decide
 
 end Lasso.C19
